@@ -11,6 +11,12 @@
 //!   `n:<id>:<k|->`  the embedder calls `Clients::disconnect(id, Some(conn id of k) | None)`
 //!   `p:<k>`       probe: is k served?  (ping answered AND a datagram it sends reaches the observer)
 //! Connections are numbered in the order of their `a`/`c` ops.
+//!
+//! Observation per op: `(ret, still)`.  `still` is empty except for `n:`: the connections the
+//! request named that were registered when it was made and that, after the deadline `GONE`,
+//! are STILL registered and STILL served (probe).  The harness never gives up with a panic on
+//! an unexpected outcome of the relay: it records what it observes (ret 8/9 = a connection did
+//! not register / could not connect).
 use std::{
     net::Ipv4Addr,
     sync::{
@@ -36,6 +42,8 @@ use tokio::sync::mpsc;
 const NIDS: u64 = 3;
 const LONG: Duration = Duration::from_secs(30);
 const PROBE: Duration = Duration::from_secs(6);
+/// how long a connection named by a disconnect request may take to leave the registry
+const GONE: Duration = Duration::from_secs(8);
 
 #[derive(Clone, Debug)]
 enum Op {
@@ -249,7 +257,7 @@ impl World {
             },
             probes: 0,
         };
-        w.observer = w.connect(NIDS, false).await;
+        w.observer = w.connect(NIDS, false).await.expect("observer connects");
         w
     }
 
@@ -258,7 +266,7 @@ impl World {
     }
 
     /// connects a client of endpoint `id`; with `paused` its accept parks right after admission
-    async fn connect(&mut self, id: u64, paused: bool) -> ConnH {
+    async fn connect(&mut self, id: u64, paused: bool) -> Result<ConnH, String> {
         let before = sched::parked_at(c08::AFTER_ADMIT);
         let nlog = self.access.0.lock().unwrap().len();
         if paused {
@@ -271,93 +279,142 @@ impl World {
         let mut ticket = None;
         if paused {
             let ok = wait_until(LONG, || sched::parked_at(c08::AFTER_ADMIT).len() > before.len()).await;
-            assert!(ok, "accept did not reach the pause point");
             ticket = sched::parked_at(c08::AFTER_ADMIT).into_iter().find(|t| !before.contains(t));
             sched::disarm(c08::AFTER_ADMIT);
+            if !ok {
+                return Err("accept did not reach the pause point".into());
+            }
         }
-        let client = tokio::time::timeout(LONG, task).await.expect("connect timeout").expect("join").expect("connect");
-        let ok = wait_until(LONG, || self.access.0.lock().unwrap().len() > nlog).await;
-        assert!(ok, "on_connect was not called");
+        let client = match tokio::time::timeout(LONG, task).await {
+            Ok(Ok(Ok(c))) => c,
+            Ok(Ok(Err(e))) => return Err(format!("connect: {e}")),
+            Ok(Err(e)) => return Err(format!("connect task: {e}")),
+            Err(_) => return Err("connect timeout".into()),
+        };
+        if !wait_until(LONG, || self.access.0.lock().unwrap().len() > nlog).await {
+            return Err("on_connect was not called".into());
+        }
         let (eid, cid) = self.access.0.lock().unwrap()[nlog];
-        assert_eq!(eid, self.secrets[id as usize].public());
+        if eid != self.secrets[id as usize].public() {
+            return Err("on_connect reported another endpoint".into());
+        }
         if !paused {
             let clients = self.clients().clone();
-            let ok = wait_until(LONG, || c08::is_registered(&clients, cid)).await;
-            assert!(ok, "connection did not register");
+            if !wait_until(LONG, || c08::is_registered(&clients, cid)).await {
+                return Err("connection did not register".into());
+            }
         }
         let (tx, rx) = mpsc::unbounded_channel();
         let seen = Arc::new(Mutex::new(Seen::default()));
         let eof = Arc::new(AtomicBool::new(false));
         tokio::spawn(client_task(client, rx, seen.clone(), eof.clone()));
-        ConnH { cid, eid: id, ticket, cmd: tx, seen, eof }
+        Ok(ConnH { cid, eid: id, ticket, cmd: tx, seen, eof })
     }
 
-    async fn exec(&mut self, op: &Op) -> u64 {
+    /// a connection that could not be set up: keeps the numbering, matches nothing
+    fn placeholder() -> ConnH {
+        ConnH {
+            cid: dummy_cid(),
+            eid: u64::MAX,
+            ticket: None,
+            cmd: mpsc::unbounded_channel().0,
+            seen: Default::default(),
+            eof: Arc::new(AtomicBool::new(true)),
+        }
+    }
+
+    async fn connect_op(&mut self, id: u64, paused: bool) -> u64 {
+        match self.connect(id, paused).await {
+            Ok(h) => {
+                self.conns.push(h);
+                1
+            }
+            Err(e) => {
+                eprintln!("c08 harness: {e}");
+                self.conns.push(Self::placeholder());
+                9
+            }
+        }
+    }
+
+    /// is connection k served?  ping answered AND a datagram it sends reaches the observer
+    async fn probe(&mut self, k: u64) -> bool {
+        self.probes = self.probes.wrapping_add(1);
+        let tag = self.probes;
+        let h = &self.conns[k as usize];
+        if h.eid >= NIDS {
+            return false;
+        }
+        let me = self.secrets[h.eid as usize].public();
+        let _ = h.cmd.send(Cmd::Send(ClientToRelayMsg::Ping([tag; 8])));
+        let _ = h.cmd.send(Cmd::Send(ClientToRelayMsg::Datagrams {
+            dst_endpoint_id: self.secrets[NIDS as usize].public(),
+            datagrams: Datagrams::from([tag]),
+        }));
+        let (seen, oseen, eof) = (h.seen.clone(), self.observer.seen.clone(), h.eof.clone());
+        let mut served = false;
+        wait_until(PROBE, || {
+            served = seen.lock().unwrap().pongs.contains(&tag) && oseen.lock().unwrap().data.contains(&(me, tag));
+            served || eof.load(Ordering::SeqCst)
+        })
+        .await;
+        served
+    }
+
+    async fn exec(&mut self, op: &Op) -> (u64, Vec<u64>) {
         let n = self.conns.len() as u64;
         match op {
-            Op::Admit(id) => {
-                let h = self.connect(*id, true).await;
-                self.conns.push(h);
-                1
-            }
-            Op::Connect(id) => {
-                let h = self.connect(*id, false).await;
-                self.conns.push(h);
-                1
-            }
+            Op::Admit(id) => (self.connect_op(*id, true).await, vec![]),
+            Op::Connect(id) => (self.connect_op(*id, false).await, vec![]),
             Op::Release(k) => {
                 if *k >= n {
-                    return 0;
+                    return (0, vec![]);
                 }
-                let Some(t) = self.conns[*k as usize].ticket.take() else { return 0 };
+                let Some(t) = self.conns[*k as usize].ticket.take() else { return (0, vec![]) };
                 sched::release(t);
                 let (clients, cid) = (self.clients().clone(), self.conns[*k as usize].cid);
-                let ok = wait_until(LONG, || c08::is_registered(&clients, cid)).await;
-                assert!(ok, "released connection did not register");
-                1
+                if !wait_until(LONG, || c08::is_registered(&clients, cid)).await {
+                    eprintln!("c08 harness: released connection {k} did not register");
+                    return (8, vec![]);
+                }
+                (1, vec![])
             }
             Op::Disc(id, o) => {
                 let conn = match o {
                     None => None,
                     Some(k) if *k < n => Some(self.conns[*k as usize].cid),
-                    Some(_) => return 0,
+                    Some(_) => return (0, vec![]),
                 };
-                let r = self.clients().disconnect(self.secrets[*id as usize].public(), conn);
-                // shutdown is asynchronous: wait until the connections the request named have
-                // left the registry (their actors saw the cancelled token and unregistered)
                 let clients = self.clients().clone();
-                let named: Vec<ConnectionId> = self
+                // the connections the request names (by connection id: that one; by endpoint id:
+                // every connection of the endpoint) that are registered — active or inactive —
+                // at this moment
+                let named: Vec<(u64, ConnectionId)> = self
                     .conns
                     .iter()
                     .enumerate()
                     .filter(|(k, h)| h.eid == *id && o.is_none_or(|x| x == *k as u64))
-                    .map(|(_, h)| h.cid)
+                    .map(|(k, h)| (k as u64, h.cid))
+                    .filter(|(_, c)| c08::is_registered(&clients, *c))
                     .collect();
-                let ok = wait_until(LONG, || named.iter().all(|c| !c08::is_registered(&clients, *c))).await;
-                assert!(ok, "a connection named by disconnect stayed registered");
-                1 + u64::from(r)
+                let r = clients.disconnect(self.secrets[*id as usize].public(), conn);
+                // shutdown is asynchronous: their actors see the cancelled token, leave the loop
+                // and unregister.  Give them until the deadline; then record which of them are
+                // still registered AND still served.
+                wait_until(GONE, || named.iter().all(|(_, c)| !c08::is_registered(&clients, *c))).await;
+                let mut still = vec![];
+                for (k, c) in &named {
+                    if c08::is_registered(&clients, *c) && self.probe(*k).await {
+                        still.push(*k);
+                    }
+                }
+                (1 + u64::from(r), still)
             }
             Op::Probe(k) => {
                 if *k >= n {
-                    return 0;
+                    return (0, vec![]);
                 }
-                self.probes = self.probes.wrapping_add(1);
-                let tag = self.probes;
-                let h = &self.conns[*k as usize];
-                let me = self.secrets[h.eid as usize].public();
-                let _ = h.cmd.send(Cmd::Send(ClientToRelayMsg::Ping([tag; 8])));
-                let _ = h.cmd.send(Cmd::Send(ClientToRelayMsg::Datagrams {
-                    dst_endpoint_id: self.secrets[NIDS as usize].public(),
-                    datagrams: Datagrams::from([tag]),
-                }));
-                let (seen, oseen, eof) = (h.seen.clone(), self.observer.seen.clone(), h.eof.clone());
-                let mut served = false;
-                wait_until(PROBE, || {
-                    served = seen.lock().unwrap().pongs.contains(&tag) && oseen.lock().unwrap().data.contains(&(me, tag));
-                    served || eof.load(Ordering::SeqCst)
-                })
-                .await;
-                u64::from(served)
+                (u64::from(self.probe(*k).await), vec![])
             }
         }
     }
@@ -391,7 +448,10 @@ fn run(raw: &str) -> (String, String) {
         rets
     });
     let out = match r {
-        Caught::Value(rets) => format!("(Ok {})", coq_list(rets, |r| r.to_string())),
+        Caught::Value(rets) => format!(
+            "(Ok {})",
+            coq_list(rets, |(r, still)| format!("({r}, {})", coq_list(still, |k| k.to_string())))
+        ),
         Caught::Panicked(m) => {
             sched::reset();
             eprintln!("c08 harness panic: {m}");
